@@ -28,7 +28,8 @@ class P(vlib.Prop):
             "(DirFSWithCaseSensitive(false)): host calls must be a subset of the model's; the class preexisting: a FRESH DirFS opened on a root populated beforehand "
             "(plain os calls / an earlier DirFS session) with links of every kind, directories, files and a hard link — its own ReadDir+Readlink picture must be the "
             "host's lstat image, then operations and package entries beneath and at those names. paths stage also: url.PathUnescape and the alpine key file name, "
-            "os.CreateTemp / os.MkdirTemp names for 15 patterns, everything expandapk.ExpandApk creates in the directory it is given, and the place-returning "
+            "os.CreateTemp / os.MkdirTemp names for 15 patterns, everything expandapk.ExpandApk creates in the directory it is given, the whole cache root after a real "
+            "install of a signed and an unsigned package through the disk cache (PCacheNames: cachePackage's advertised names), and the place-returning "
             "lookup of the operational model against getNodeCountLinks' answer on every tree-lookup case. "
             "Every change outside the four designated directories is handed to the verified validator `escapes` and must be explained by the model as one of "
             "the recorded findings: F1 only for calls that reach the os package on the unchanged code (host-first methods, or tree-checked ones after an "
@@ -68,7 +69,8 @@ class P(vlib.Prop):
                   "target joined to the names traversed (the join's shape is read from memfs.go / tarfs) still begins with '..' makes every lookup through it fail "
                   "(what seeded change C18-4 breaks); ExpandApk's temporary directory, stream files and tar, PackageData's temporary file and the names cachePackage "
                   "advertises lie in the cache directory (every creating call of pkg/apk/expandapk and pkg/paths is read from the source with its arguments traced "
-                  "to parameters); fetchAlpineKeys' decoded key name can climb and is held back on DirFS only by that gate; DirFS's walk over an existing root uses the "
+                  "to parameters; so are cachePackage's and retrieveAndSaveFile's: every name cachePackage advertises is one proper component below the cache directory, "
+                  "retrieveAndSaveFile's directory, temporary file and advertised name lie at or below the etag file's directory); fetchAlpineKeys' decoded key name can climb and is held back on DirFS only by that gate; DirFS's walk over an existing root uses the "
                   "DirEntry's own lstat (read from the source), so the overlay it builds is the lstat image of the root (the mirror function is the identity; with a "
                   "link-following stat a link to a host directory becomes a directory in memory and Create beneath it escapes: refutation); "
                   "everything cachedPackage creates for a cached datahash lies in the cache directory whatever the datahash text is (the os.Stat that precedes the hex check can be aimed outside: refuted as a read-confinement claim). "
